@@ -807,7 +807,8 @@ func HarnessC02History() {
 	size := 64
 	if verifrt.Param("REALLRU", 0) == 1 {
 		zz2RealLRU = true
-		size = verifrt.NondetRange("lrusize", 1, 2)
+		// (golang-lru rejects a 2Q cache of size 1: its ghost list would have size 0; see HarnessC02Constructor)
+		size = verifrt.NondetRange("lrusize", 2, 3)
 	}
 	defer func() { zz2RealLRU = false }()
 	w := zz2NewWorld(layers, false, func(b *zz2Back) Blockstore { return zz2Lower(b, true, true) }, size)
@@ -977,5 +978,51 @@ func HarnessC02Rebuild() {
 	w.falsePositives()
 	w.checkInvariant("rebuild-")
 	w.checkReads("rebuild-then-")
+	verifrt.Reach("end")
+}
+
+// HarnessC02Constructor: the public constructor CachedBlockstore over the option space (two-queue size
+// -1/0/1/2/64 over the REAL golang-lru code, bloom size -1/0/64 bytes, hash count -1/0/3): invalid options are
+// rejected; whatever is returned without an error is a store that answers like the uncached one.
+func HarnessC02Constructor() {
+	ctx := context.Background()
+	zz2Reset()
+	zz2RealLRU = true
+	defer func() { zz2RealLRU = false }()
+	w := &zz2World{pool: zz2Pool()}
+	w.back = zz2NewBack(w.pool)
+	for i := range w.pool {
+		w.back.present[i] = verifrt.NondetBool("present")
+	}
+	opts := CacheOpts{
+		HasTwoQueueCacheSize: []int{-1, 0, 1, 2, 64}[verifrt.NondetRange("tqsize", 0, 4)],
+		HasBloomFilterSize:   []int{-1, 0, 64}[verifrt.NondetRange("bloomsize", 0, 2)],
+		HasBloomFilterHashes: []int{-1, 0, 3}[verifrt.NondetRange("hashes", 0, 2)],
+	}
+	cbs, err := CachedBlockstore(ctx, zz2Lower(w.back, true, true), opts)
+	verifrt.Observe("ok", err == nil)
+	invalid := opts.HasTwoQueueCacheSize < 0 || opts.HasBloomFilterSize < 0 || opts.HasBloomFilterHashes < 0 ||
+		(opts.HasBloomFilterSize != 0 && opts.HasBloomFilterHashes == 0)
+	if invalid {
+		verifrt.Assert("C02.ctor-invalid-options-rejected", err != nil)
+	}
+	if err != nil {
+		verifrt.Reach("end")
+		return
+	}
+	verifrt.Assert("C02.ctor-returns-a-store", cbs != nil)
+	if s, ok := cbs.(BloomCacheStatus); ok {
+		verifrt.Assert("C02.ctor-bloom-configured-iff-status", opts.HasBloomFilterSize != 0)
+		verifrt.Assert("C02.ctor-initial-build-succeeds", s.Wait(ctx) == nil && s.BloomActive())
+	} else {
+		verifrt.Assert("C02.ctor-bloom-configured-iff-status", opts.HasBloomFilterSize == 0)
+	}
+	w.top = cbs
+	w.checkReads("ctor-")
+	t := verifrt.NondetRange("put", 0, len(w.pool)-1)
+	verifrt.Assert("C02.ctor-put-succeeds", cbs.Put(ctx, w.pool[t].block(0)) == nil && w.back.present[t])
+	w.checkReads("ctor-put-then-")
+	verifrt.Assert("C02.ctor-delete-succeeds", cbs.DeleteBlock(ctx, w.pool[t].cid(0)) == nil && !w.back.present[t])
+	w.checkReads("ctor-delete-then-")
 	verifrt.Reach("end")
 }
